@@ -871,6 +871,31 @@ fn json_roundtrip(seed: u64) -> serde_json::Value {
     json!({"found": false, "routine": "json_roundtrip", "tried": tried})
 }
 
+// C18: apply a permutation then its inverse restores the array; inverse_permutation inverts; for every permutation of length <= 5 and 2-d data
+fn perm_roundtrip(_seed: u64) -> serde_json::Value {
+    use ciphercore_base::graphs::util::simple_context;
+    fn perms(n: usize) -> Vec<Vec<u64>> { if n == 0 { return vec![vec![]]; } let mut out = vec![]; for p in perms(n - 1) { for pos in 0..n { let mut q = p.clone(); q.insert(pos, (n - 1) as u64); out.push(q); } } out }
+    let mut tried = 0u64;
+    for n in 1..=5usize {
+        let t = array_type(vec![n as u64, 2], INT64); let tp = array_type(vec![n as u64], UINT64);
+        let data: Vec<u64> = (0..2 * n as u64).map(|i| 1000 + 7 * i).collect();
+        let c = simple_context(|g| { let x = g.input(t.clone())?; let p = g.input(tp.clone())?; let y = x.apply_permutation(p.clone())?; let z = y.apply_inverse_permutation(p.clone())?; let inv = p.inverse_permutation()?; let w = y.apply_permutation(inv.clone())?; g.create_tuple(vec![y, z, inv, w]) }).unwrap();
+        for p in perms(n) {
+            tried += 1;
+            let r = catch_unwind(AssertUnwindSafe(|| random_evaluate(c.get_main_graph().unwrap(), vec![Value::from_flattened_array(&data, INT64).unwrap(), Value::from_flattened_array(&p, UINT64).unwrap()])));
+            let v = match r { Ok(Ok(v)) => v.to_vector().unwrap(), _ => return json!({"found": true, "routine": "perm_roundtrip", "property": "C18", "input": {"permutation": p}, "observed": "error or panic"}) };
+            let y = v[0].to_flattened_array_u64(t.clone()).unwrap(); let z = v[1].to_flattened_array_u64(t.clone()).unwrap(); let inv = v[2].to_flattened_array_u64(tp.clone()).unwrap(); let w = v[3].to_flattened_array_u64(t.clone()).unwrap();
+            let want_y: Vec<u64> = (0..n).flat_map(|k| vec![data[2 * p[k] as usize], data[2 * p[k] as usize + 1]]).collect();
+            let inv_ok = (0..n).all(|i| inv[p[i] as usize] == i as u64);
+            if y != want_y || z != data || !inv_ok || w != data {
+                return json!({"found": true, "routine": "perm_roundtrip", "property": "C18", "input": {"x (shape [n,2])": data, "permutation": p},
+                    "observed": {"apply": y, "apply_then_inverse": z, "inverse_permutation": inv, "apply_then_apply_inverse_permutation": w}, "expected": {"apply": want_y, "apply_then_inverse": data}, "what": "ApplyPermutation / InversePermutation evaluated by SimpleEvaluator"});
+            }
+        }
+    }
+    json!({"found": false, "routine": "perm_roundtrip", "tried": tried})
+}
+
 // C14: per-party shares reconstruct the secret, for scalars, arrays (incl. bits and 128-bit) and nested containers
 fn share_roundtrip(seed: u64) -> serde_json::Value {
     use ciphercore_base::random::PRNG;
@@ -924,6 +949,7 @@ fn main() {
         Some("arith_kernels") => arith_kernels(seed),
         Some("cmp_small_widths") => cmp_small_widths(seed),
         Some("share_roundtrip") => share_roundtrip(seed),
+        Some("perm_roundtrip") => perm_roundtrip(seed),
         Some("json_roundtrip") => json_roundtrip(seed),
         Some("protocol_knowledge") => protocol_knowledge(),
         Some("psi_knowledge") => psi_knowledge(),
